@@ -423,13 +423,14 @@ def run_sequence(root, docs, seq, offers=None, disk_extra=None):
             elif op[0] == "xnotif":
                 c.notify(op[2], op[3])
             elif op[0] == "watch":
-                for (act, uri, typ, text) in op[2]:
+                for (act, uri, typ, text) in [e[:4] for e in op[2]]:
                     path = uri[7:]
                     if act == "write":
                         open(path, "w").write(text)
                     elif act == "delete" and os.path.isfile(path):
                         os.remove(path)
-                c.notify("workspace/didChangeWatchedFiles", {"changes": [{"uri": uri, "type": typ} for (_, uri, typ, _) in op[2]]})
+                # an event may name the file under another spelling of its URI than the one used for the disk action (5th element)
+                c.notify("workspace/didChangeWatchedFiles", {"changes": [{"uri": (e[4] if len(e) > 4 else e[1]), "type": e[2]} for e in op[2]]})
             else:
                 params = {"textDocument": {"uri": op[1].uri}}
                 if "semanticTokens" not in op[2]:
@@ -622,6 +623,88 @@ def run_vanish_sessions(res, tier, seed):
                 res.add_violation("C15/text-diverged", f"server text {got!r} != editor text {p_text.strip_cr(text)!r} for {key} (a document opened after another one's file vanished)", replay)
 
 
+def respell(uri, rng):
+    """another spelling of the same file URI: one character of the last path components percent-encoded (`a.gleam` -> `%61.gleam`,
+    `pkg@1` <-> `pkg%401`); editors, file watchers and plugins do not agree on which characters they escape"""
+    pre = "file://"
+    path = uri[len(pre):]
+    idx = [i for i, ch in enumerate(path) if (ch.isascii() and ch.isalnum()) or ch in "._-@"]
+    i = rng.choice(idx[-14:])
+    return pre + path[:i] + "%%%02X" % ord(path[i]) + path[i + 1:]
+
+
+def run_respelled_sessions(res, tier, seed):
+    """one file reaches the server under TWO spellings of its URI (the editor's, and a file watcher's or plugin's that escapes other
+    characters): opened under one, then announced as deleted / changed, closed or edited under the other, then edited again under the
+    first; in half of the sessions a never-seen document is opened in between.  The server stays alive, answers every request once, and
+    the document opened in between holds exactly the text it was opened with (oracle only: which of the two spellings the server
+    takes for "the" document is its choice)."""
+    lsp.build_glas()
+    n = 15 if tier == "quick" else 300
+    base = os.path.join(common.ROOT, "work", f"c15r-{os.getpid()}")
+    shutil.rmtree(base, ignore_errors=True)
+    jobs = []
+    for i in range(n):
+        rng = random.Random(seed * 104729 + i)
+        root = os.path.join(base, rng.choice(["r", "pkg@1", "a+b", "it's"]) + str(i))
+        docs = gen_sequence(random.Random(1), root)[0]
+        fresh = Doc("f7", "file://" + root + "/src/fresh.gleam")
+        docs = docs + [fresh]
+        a = docs[rng.randrange(2)]
+        ax = Doc(a.key + "~other-spelling", respell(a.uri, rng))
+        ta = "pub fn " + rand_text(rng, 3).replace("\r", "").replace("\n", " ") + "\nfn second() { 2 }\n"
+        tb = "pub fn fresh_one() { \"" + rng.choice(["x", "é", "💣"]) + "\" }\nfn more() { 3 }\n"
+        variant = i % 5
+        first, second = (a, ax) if rng.random() < 0.5 else (ax, a)
+        seq = [("open", first, ta)]
+        if rng.random() < 0.5:
+            seq.append(("change", first, [((0, 0, 0, 0), "// edited\n", "valid")]))
+        if variant == 0:
+            seq.append(("watch", a, [("delete", a.uri, 3, "", second.uri)]))
+        elif variant == 1:
+            seq.append(("watch", a, [("write", a.uri, 2, "pub fn on_disk() { 0 }\n", second.uri)]))
+        elif variant == 2:
+            seq.append(("close", second))
+        elif variant == 3:
+            seq.append(("change", second, [((0, 0, 0, 0), "// other spelling\n", "valid")]))
+        else:
+            seq.append(("open", second, ta + "// again\n"))
+            seq.append(("watch", a, [("delete", a.uri, 3, "", first.uri)]))
+        want_fresh = i % 2 == 0
+        if want_fresh:
+            seq.append(("open", fresh, tb))
+        seq.append(("change", first, [((1, 0, 1, 2), "zz", "valid")]))
+        seq.append(("req", first, "textDocument/hover", 1, 4, 900 + i))
+        seq.append(("change", first, [((0, 0, 0, rng.choice([0, 3])), rng.choice(["", "fn "]), "valid")]))
+        seq.append(("req", second, "textDocument/hover", 0, 4, 930 + i))
+        if want_fresh:
+            seq.append(("req", fresh, "textDocument/hover", 0, 8, 950 + i))
+        jobs.append((root, docs, seq, {"f7": tb} if want_fresh else {}, variant))
+    try:
+        observations = common.parallel_map(lambda j: run_sequence(j[0], j[1], j[2]), jobs, workers=min(common.NCPU, 8))
+    finally:
+        shutil.rmtree(base, ignore_errors=True)
+    res.cov["respelled_sessions"] = n
+    what = ["deleted under the other spelling", "changed on disk under the other spelling", "closed under the other spelling",
+            "edited under the other spelling", "opened under both spellings, deleted under the first"]
+    for (root, docs, seq, client, variant), obs in zip(jobs, observations):
+        res.cov["evaluations"] += len(seq)
+        replay = {"sequence": [describe(op) for op in seq], "observation": {k: v for k, v in obs.items() if k != "texts"}, "texts": obs.get("texts")}
+        if not obs["alive"]:
+            kind = seq[obs["died_at"]][0] if isinstance(obs["died_at"], int) and obs["died_at"] < len(seq) else "initialize"
+            res.add_violation("C15/server-died/one-file-under-two-uri-spellings", f"the server process ended after message {obs['died_at']} ({kind}) of a session in which a document "
+                              f"was opened under one spelling of its URI and {what[variant]}: {obs.get('stderr', '')[-200:]}", replay)
+            continue
+        for rid, v in obs["responses"].items():
+            if v is None:
+                res.add_violation("C15/request-unanswered", f"request {rid} got no response (one file under two URI spellings)", replay)
+        for key, text in client.items():
+            got = obs["texts"].get(key)
+            if got != p_text.strip_cr(text):
+                res.add_violation("C15/text-diverged", f"server text {got!r} != editor text {p_text.strip_cr(text)!r} for {key} (a document opened while another one was "
+                                  f"addressed under two URI spellings: {what[variant]})", replay)
+
+
 def run_request_burst(res, tier, seed):
     """more slow requests in flight than the server allows at a time (lib.rs: ConcurrencyLayer::new(available_parallelism)):
     all of them must still be answered, and a message sent afterwards must be handled"""
@@ -754,7 +837,7 @@ def describe(op):
     if op[0] == "xnotif":
         return f"{op[2]} {json.dumps(op[3])[:120]}"
     if op[0] == "watch":
-        return "didChangeWatchedFiles " + "; ".join(f"{act} {uri.split('/')[-1] or uri} type={typ}" for (act, uri, typ, _) in op[2])
+        return "didChangeWatchedFiles " + "; ".join(f"{e[0]} {e[1].split('/')[-1] or e[1]} type={e[2]}" + (f" announced as {e[4]}" if len(e) > 4 else "") for e in op[2])
     return f"{op[2]} {op[1].key} ({op[3]},{op[4]}) id={op[5]}"
 
 
@@ -824,6 +907,7 @@ def run(prop, res, tier, seed):
     run_c15(res, tier, seed)
     run_request_burst(res, tier, seed)
     run_vanish_sessions(res, tier, seed)
+    run_respelled_sessions(res, tier, seed)
     run_vfs_ids(res, tier, seed)
     if res.disagreements:
         rq, a, b = res.disagreements[0]
